@@ -1,11 +1,12 @@
 (** * StorageC: the storage invariant holds in every state reachable by any history of the core
     operations (relation-free worlds), and stale handles are rejected at the level of the operation
-    language. Layer C of the storage proofs. To be filled. *)
+    language. Layer C of the storage proofs. Helper lemmas carry the prefix [sc_]. *)
 From Ark Require Import Model.Base Model.Mask Model.Pool Model.Util Model.World Model.Run.
 From Ark Require Import Proofs.TableProofs Proofs.MaskProofs Proofs.Hoare Proofs.WF Proofs.StorageA Proofs.StorageBDefs.
 From Ark Require Import Proofs.StorageB_sb1 Proofs.StorageB_sb2 Proofs.StorageB_sb3.
 From RecordUpdate Require Import RecordSet.
 Import RecordSetNotations.
+From Ark Require Import Proofs.LockWorld.
 From Coq Require Import Lia.
 
 (** The operations covered: creation, copy, add / remove / exchange without relation targets,
@@ -42,12 +43,726 @@ Definition issued_ok (s : W) (n : nat) : Prop :=
 
 Definition Inv (s : W) (n : nat) : Prop := St s /\ issued_ok s n.
 
+
+(** ** sc: helpers *)
+
+(** *** Arithmetic: generations stay below the uint32 range *)
+Lemma sc_pow_bound : forall n, n + 4 < Nat.pow 2 31 -> (N.of_nat n + 1 < 4294967296)%N.
+Proof.
+  intros n H.
+  assert (E : N.of_nat (Nat.pow 2 31) = 2147483648%N) by (rewrite Nat2N.inj_pow; reflexivity).
+  set (P := Nat.pow 2 31) in *. lia.
+Qed.
+
+(** *** The state fields the invariant does not mention *)
+Lemma sc_St_log : forall s l, St s -> St (s <| w_log := l |>).
+Proof. intros s l H. eapply storage_same_St; [|exact H]. repeat split. Qed.
+
+Lemma sc_St_issued : forall s f, St s -> St (s <| w_issued ::= f |>).
+Proof.
+  intros s f [HW HN]. split.
+  - apply (sa_WF_ext s); auto.
+  - apply (sa_NoRel_ext s); auto.
+Qed.
+
+Lemma sc_Inv_log : forall s n l, Inv s n -> Inv (s <| w_log := l |>) n.
+Proof. intros s n l [HS HI]. split; [apply sc_St_log; exact HS|exact HI]. Qed.
+
+Ltac sc_lia := unfold ent in *; lia.
+
+(** *** Pools: what creation does to the slots *)
+Definition sc_gens_kept (p p' : pool) : Prop :=
+  forall i l g, nth_error (pe p) i = Some (l, g) -> exists l', nth_error (pe p') i = Some (l', g).
+Definition sc_new_zero (p p' : pool) : Prop :=
+  forall i l g, length (pe p) <= i -> nth_error (pe p') i = Some (l, g) -> g = 0%N.
+Definition sc_pcreate (p p' : pool) : Prop :=
+  sc_gens_kept p p' /\ sc_new_zero p p' /\ length (pe p') <= S (length (pe p)).
+
+Lemma sc_pcreate_refl : forall p, sc_pcreate p p.
+Proof.
+  intros p. split; [|split].
+  - intros i l g H. eauto.
+  - intros i l g H1 H2. apply sa_nth_error_lt in H2. sc_lia.
+  - sc_lia.
+Qed.
+
+Lemma sc_pcreate_get : forall p, sc_pcreate p (snd (pool_get p)).
+Proof.
+  intros p. unfold pool_get. destruct (Nat.eqb (pavail p) 0).
+  - unfold sc_pcreate, sc_gens_kept, sc_new_zero. simpl. split; [|split].
+    + intros i l g H. exists l. apply sa_nth_error_snoc_old. exact H.
+    + intros i l g H1 H2. apply sa_nth_error_snoc in H2. destruct H2 as [[H2 _]|[_ H2]]; [sc_lia|].
+      inversion H2. reflexivity.
+    + rewrite app_length. simpl. sc_lia.
+  - destruct (nth_error (pe p) (pnext p)) as [[nid g0]|] eqn:E; simpl; [|apply sc_pcreate_refl].
+    assert (Hlt : pnext p < length (pe p)) by (eapply sa_nth_error_lt; eauto).
+    unfold sc_pcreate, sc_gens_kept, sc_new_zero. simpl. split; [|split].
+    + intros i l g H. destruct (Nat.eq_dec (pnext p) i) as [<-|Hne].
+      * rewrite E in H. inversion H; subst. exists (pnext p). apply sa_nth_error_upd_eq. exact Hlt.
+      * exists l. rewrite sa_nth_error_upd_ne by exact Hne. exact H.
+    + intros i l g H1 H2. apply sa_nth_error_lt in H2. rewrite upd_length in H2. sc_lia.
+    + rewrite upd_length. sc_lia.
+Qed.
+
+Lemma sc_gens_kept_len : forall p p', sc_gens_kept p p' -> length (pe p) <= length (pe p').
+Proof.
+  intros p p' H. destruct (Nat.le_gt_cases (length (pe p)) (length (pe p'))) as [L|L]; [exact L|].
+  destruct (nth_error (pe p) (length (pe p'))) as [[l g]|] eqn:E.
+  - destruct (H _ _ _ E) as (l' & E'). apply sa_nth_error_lt in E'. sc_lia.
+  - apply nth_error_None in E. sc_lia.
+Qed.
+
+(** What recycling does to the slots. *)
+Lemma sc_recycle_shape : forall p e p', pool_recycle p e = Some p' ->
+  exists l g, nth_error (pe p) (fst e) = Some (l, g) /\
+              pe p' = upd (fst e) (pnext p, ((g + 1) mod 4294967296)%N) (pe p).
+Proof.
+  intros p e p' H. unfold pool_recycle in H. destruct (Nat.ltb (fst e) reserved); [discriminate|].
+  destruct (nth_error (pe p) (fst e)) as [[l g]|]; [|discriminate].
+  inversion H; subst. simpl. eauto.
+Qed.
+
+
+(** *** Handles *)
+Lemma sc_resolveH : forall h s,
+  resolveH h s = match handle s h with Some e => Ok e s | None => Err EMisuse s end.
+Proof. intros h s. unfold resolveH, bind, get. destruct (handle s h); reflexivity. Qed.
+
+Lemma sc_alive_slot : forall s e, alive s e = true -> exists l, nth_error (pe (w_pool s)) (fst e) = Some (l, snd e).
+Proof.
+  intros s e H. unfold alive, pool_alive in H.
+  destruct (nth_error (pe (w_pool s)) (fst e)) as [[l g]|]; [|discriminate].
+  apply N.eqb_eq in H. subst. eauto.
+Qed.
+
+Lemma sc_zero_dead : forall s, WF s -> alive s zero_ent = false.
+Proof.
+  intros s HW. destruct (wf_reserved _ HW) as (_ & _ & P0 & _).
+  unfold alive, pool_alive, zero_ent. cbn [fst snd]. rewrite P0. reflexivity.
+Qed.
+
+(** An issued handle (or the zero entity) that passes the generation check is live. *)
+Lemma sc_handle_alive_live : forall s n h e, Inv s n -> handle s h = Some e -> alive s e = true -> live s e = true.
+Proof.
+  intros s n h e [[HW _] (I1 & _)] Hh Ha. unfold handle in Hh. destruct (Z.ltb h 0).
+  - inversion Hh; subst. rewrite (sc_zero_dead s HW) in Ha. discriminate.
+  - apply nth_error_In in Hh. destruct (I1 e Hh) as (_ & [L|(l & g & E & Hg)]); [exact L|].
+    destruct (sc_alive_slot s e Ha) as (l' & E'). rewrite E in E'. inversion E'; subst. lia.
+Qed.
+
+Lemma sc_handle_dead : forall s n h e, Inv s n -> handle s h = Some e -> live s e = false -> alive s e = false.
+Proof.
+  intros s n h e HI Hh Hl. destruct (alive s e) eqn:Ha; [|reflexivity].
+  rewrite (sc_handle_alive_live s n h e HI Hh Ha) in Hl. discriminate.
+Qed.
+
+(** *** What one operation may do to the world, as far as the invariant is concerned *)
+Definition sc_trans (s s' : W) : Prop :=
+  St s' /\ w_reg s' = w_reg s /\ w_issued s' = w_issued s /\
+  ((sc_pcreate (w_pool s) (w_pool s') /\ forall x, live s x = true -> live s' x = true) \/
+   (exists e, pool_recycle (w_pool s) e = Some (w_pool s') /\ live s e = true /\
+              forall x, x <> e -> live s x = true -> live s' x = true)).
+
+Lemma sc_trans_keep : forall s s', St s' -> w_reg s' = w_reg s -> w_issued s' = w_issued s ->
+  w_pool s' = w_pool s -> (forall x, live s x = true -> live s' x = true) -> sc_trans s s'.
+Proof.
+  intros s s' H1 H2 H3 H4 H5. split; [exact H1|]. split; [exact H2|]. split; [exact H3|].
+  left. split; [rewrite H4; apply sc_pcreate_refl|exact H5].
+Qed.
+
+Lemma sc_trans_rejected : forall s s', rejected s s' -> sc_trans s s'.
+Proof.
+  intros s s' (R1 & R2 & R3 & (F1 & _ & _ & _ & F5 & _)). apply sc_trans_keep; auto.
+  intros x Hx. rewrite (proj1 (R2 x)). exact Hx.
+Qed.
+
+Lemma sc_trans_refl : forall s, St s -> sc_trans s s.
+Proof. intros s H. apply sc_trans_rejected. apply sb2_rejected_refl. exact H. Qed.
+
+Lemma sc_trans_storage : forall s s1 s2, sc_trans s s1 -> storage_same s1 s2 -> sc_trans s s2.
+Proof.
+  intros s s1 s2 (T1 & T2 & T3 & T4) SS.
+  pose proof (sb3_storage_same_content _ _ SS) as CS.
+  pose proof (storage_same_St _ _ SS T1) as HSt2.
+  destruct SS as (_ & S2 & S3 & _ & _ & _ & _ & _ & _ & _ & _ & _ & _ & _ & _ & _ & _ & S18).
+  split; [exact HSt2|]. split; [congruence|]. split; [congruence|]. rewrite S3.
+  destruct T4 as [(P & L)|(e & P & Le & L)].
+  - left. split; [exact P|]. intros x Hx. rewrite (proj1 (CS x)). auto.
+  - right. exists e. split; [exact P|]. split; [exact Le|]. intros x Hne Hx. rewrite (proj1 (CS x)). auto.
+Qed.
+
+(** An operation on one entity that keeps the pool. *)
+Lemma sc_trans_modified : forall s s' e, St s' -> others_same s s' e -> live s' e = true ->
+  w_pool s' = w_pool s -> frame_user s s' -> sc_trans s s'.
+Proof.
+  intros s s' e H1 H2 H3 H4 (F1 & _ & _ & _ & F5 & _). apply sc_trans_keep; auto.
+  intros x Hx. destruct (sa_ent_eqb_eq x e) as [_ Hq].
+  destruct (ent_eqb x e) eqn:E.
+  - apply sa_ent_eqb_eq in E. subst. exact H3.
+  - assert (x <> e) by (intros ->; rewrite sa_ent_eqb_refl in E; discriminate).
+    rewrite (proj1 (H2 x H)). exact Hx.
+Qed.
+
+(** The invariant across one transition. *)
+Lemma sc_trans_issued : forall s s' n, Inv s n -> n + 4 < Nat.pow 2 31 -> sc_trans s s' -> issued_ok s' (S n).
+Proof.
+  intros s s' n [[HW HN] (I1 & I2 & I3)] Hn (T1 & T2 & T3 & T4).
+  destruct T4 as [((G1 & G2 & G3) & L)|(e & P & Le & L)].
+  - pose proof (sc_gens_kept_len _ _ G1) as Hlen.
+    split; [|split].
+    + intros x Hx. rewrite T3 in Hx. destruct (I1 x Hx) as (R & D). split; [sc_lia|].
+      destruct D as [D|(l & g & E & Hg)]; [left; auto|]. right.
+      destruct (G1 _ _ _ E) as (l' & E'). exists l', g. auto.
+    + intros i l g E Hi. destruct (nth_error (pe (w_pool s)) i) as [[l0 g0]|] eqn:E0.
+      * destruct (G1 _ _ _ E0) as (l' & E'). rewrite E in E'. inversion E'; subst.
+        pose proof (I2 _ _ _ E0 Hi). lia.
+      * apply nth_error_None in E0. rewrite (G2 _ _ _ E0 E). lia.
+    + sc_lia.
+  - destruct (live_alive s e HW Le) as (Ha & He2).
+    apply live_present in Le. destruct Le as (tid & r & t & Lc & Tt & Rr & Er).
+    destruct (wf_rows _ HW tid t r Tt Rr) as (_ & Pe). rewrite Er in Pe.
+    destruct (sc_recycle_shape _ _ _ P) as (l0 & g0 & E0 & Epe). rewrite Pe in E0.
+    assert (g0 = snd e /\ l0 = fst e) as (-> & ->) by (destruct e; inversion E0; auto).
+    assert (Hge : (snd e <= N.of_nat n)%N) by (apply (I2 (fst e) (fst e) (snd e)); [destruct e; exact Pe|exact He2]).
+    pose proof (sc_pow_bound n Hn) as Hb.
+    assert (Hmod : ((snd e + 1) mod 4294967296 = snd e + 1)%N) by (apply N.mod_small; lia).
+    rewrite Hmod in Epe.
+    assert (Hlt : fst e < length (pe (w_pool s))) by (eapply sa_nth_error_lt; eauto).
+    assert (Hnew : nth_error (pe (w_pool s')) (fst e) = Some (pnext (w_pool s), (snd e + 1)%N))
+      by (rewrite Epe; apply sa_nth_error_upd_eq; exact Hlt).
+    assert (Hoth : forall i, i <> fst e -> nth_error (pe (w_pool s')) i = nth_error (pe (w_pool s)) i)
+      by (intros i Hi; rewrite Epe; apply sa_nth_error_upd_ne; congruence).
+    assert (Hlen : length (pe (w_pool s')) = length (pe (w_pool s))) by (rewrite Epe; apply upd_length).
+    split; [|split].
+    + intros x Hx. rewrite T3 in Hx. destruct (I1 x Hx) as (R & D). split; [sc_lia|].
+      destruct D as [D|(l & g & E & Hg)].
+      * destruct (ent_eqb x e) eqn:Exe.
+        -- apply sa_ent_eqb_eq in Exe. subst x. right. eexists _, _. split; [exact Hnew|lia].
+        -- left. apply L; [|exact D]. intros ->. rewrite sa_ent_eqb_refl in Exe. discriminate.
+      * right. destruct (Nat.eq_dec (fst x) (fst e)) as [Eq|Ne].
+        -- rewrite Eq in E. rewrite Pe in E. destruct e as [ei eg]. inversion E; subst.
+           rewrite Eq. eexists _, _. split; [exact Hnew|]. cbn [snd]. lia.
+        -- exists l, g. rewrite Hoth by exact Ne. auto.
+    + intros i l g E Hi. destruct (Nat.eq_dec i (fst e)) as [->|Ne].
+      * rewrite Hnew in E. inversion E; subst. lia.
+      * rewrite Hoth in E by exact Ne. pose proof (I2 _ _ _ E Hi). lia.
+    + sc_lia.
+Qed.
+
+
+(** *** Computations that keep the pool / that take at most one slot from it *)
+Definition sc_pk {A} (m : MW A) : Prop := forall s, w_pool (state_of (m s)) = w_pool s.
+Definition sc_pc {A} (m : MW A) : Prop := forall s, sc_pcreate (w_pool s) (w_pool (state_of (m s))).
+
+Lemma sc_pk_sp : forall A (m : MW A), sa_sp m -> sc_pk m.
+Proof. intros A m H s. apply (H s). Qed.
+Lemma sc_pk_ro : forall A (m : MW A), readonly m -> sc_pk m.
+Proof. intros A m H s. rewrite (H s). reflexivity. Qed.
+Lemma sc_pk_bind : forall A B (m : MW A) (k : A -> MW B), sc_pk m -> (forall a, sc_pk (k a)) -> sc_pk (bind m k).
+Proof.
+  intros A B m k Hm Hk s. unfold bind. specialize (Hm s). destruct (m s) as [a s1|er s1]; simpl in Hm.
+  - rewrite (Hk a s1). exact Hm.
+  - exact Hm.
+Qed.
+Lemma sc_pk_modify : forall f : W -> W, (forall s, w_pool (f s) = w_pool s) -> sc_pk (modify f).
+Proof. intros f H s. apply H. Qed.
+Lemma sc_pk_forM : forall A (l : list A) (f : A -> MW unit), (forall a, sc_pk (f a)) -> sc_pk (forM_ l f).
+Proof.
+  intros A l f H. induction l as [|x l IH]; cbn [forM_].
+  - apply sc_pk_ro, readonly_ret.
+  - apply sc_pk_bind; [apply H|intros _; exact IH].
+Qed.
+
+Lemma sc_pk_getT : forall i, sc_pk (getT i).
+Proof. intros. apply sc_pk_ro, readonly_getT. Qed.
+Lemma sc_pk_getA : forall i, sc_pk (getA i).
+Proof. intros. apply sc_pk_ro. unfold getA. ro. Qed.
+Lemma sc_pk_modT : forall i f, sc_pk (modT i f).
+Proof. intros. apply sc_pk_modify. reflexivity. Qed.
+Lemma sc_pk_tbl_addM : forall tid e, sc_pk (tbl_addM tid e).
+Proof.
+  intros. unfold tbl_addM. apply sc_pk_bind; [apply sc_pk_getT|]. intros t.
+  destruct (tbl_add t e) as [idx t']. apply sc_pk_bind; [apply sc_pk_modT|]. intros _. apply sc_pk_ro, readonly_ret.
+Qed.
+Lemma sc_pk_set_index : forall id v, sc_pk (set_index id v).
+Proof. intros. apply sc_pk_modify. intros s. destruct (Nat.eqb id (length (w_index s))); reflexivity. Qed.
+Lemma sc_pk_copy_all : forall src dst row nidx, sc_pk (copy_all src dst row nidx).
+Proof.
+  intros. unfold copy_all. apply sc_pk_bind; [apply sc_pk_getT|]. intros st.
+  apply sc_pk_forM. intros i. apply sc_pk_bind; [apply sc_pk_getT|]. intros st'.
+  apply sc_pk_bind; [apply sc_pk_getT|]. intros dt.
+  destruct (nth_error (t_cols st') i); [destruct (nth_error (t_kinds dt) i)|];
+    try apply sc_pk_modT; apply sc_pk_ro, readonly_fail.
+Qed.
+Lemma sc_pk_fire_create : forall e m, sc_pk (fire_create_entity_if_has e m).
+Proof. intros. apply sc_pk_sp. exact (fire_create_entity_if_has_storage e m). Qed.
+Lemma sc_sp_fire_create_rel : forall e m, sa_sp (fire_create_entity_rel_if_has e m).
+Proof. intros. unfold fire_create_entity_rel_if_has, fire_create_entity_rel. sa_sp_tac; apply sa_sp_fire. Qed.
+
+Lemma sc_pc_pk : forall A (m : MW A), sc_pk m -> sc_pc m.
+Proof. intros A m H s. rewrite (H s). apply sc_pcreate_refl. Qed.
+Lemma sc_pc_bind_ro : forall A B (m : MW A) (k : A -> MW B), readonly m -> (forall a, sc_pc (k a)) -> sc_pc (bind m k).
+Proof.
+  intros A B m k Hm Hk s. unfold bind. specialize (Hm s). destruct (m s) as [a s1|er s1]; simpl in Hm; subst s1.
+  - apply Hk.
+  - apply sc_pcreate_refl.
+Qed.
+Lemma sc_pc_getM : forall A (k : ent -> MW A), (forall e, sc_pk (k e)) -> sc_pc (bind pool_getM k).
+Proof.
+  intros A k Hk s. unfold pool_getM, bind, get, put, ret.
+  pose proof (sc_pcreate_get (w_pool s)) as H.
+  destruct (pool_get (w_pool s)) as [e p']. simpl in H.
+  rewrite (Hk e). exact H.
+Qed.
+
+Lemma sc_pc_create_entity : forall tid, sc_pc (create_entity tid).
+Proof.
+  intros tid. unfold create_entity. apply sc_pc_getM. intros e.
+  apply sc_pk_bind; [apply sc_pk_tbl_addM|]. intros idx.
+  apply sc_pk_bind; [apply sc_pk_set_index|]. intros _.
+  apply sc_pk_bind; [apply sc_pk_modify; reflexivity|]. intros _. apply sc_pk_ro, readonly_ret.
+Qed.
+
+Lemma sc_ro_check_locked : readonly check_locked.
+Proof. unfold check_locked. ro. Qed.
+
+Lemma sc_pc_copy_entity : forall e, sc_pc (w_copy_entity e).
+Proof.
+  intros e. unfold w_copy_entity.
+  apply sc_pc_bind_ro; [apply sc_ro_check_locked|]. intros _.
+  apply sc_pc_bind_ro; [apply readonly_get|]. intros s0.
+  apply sc_pc_bind_ro; [apply readonly_guard|]. intros _.
+  apply sc_pc_getM. intros ne.
+  apply sc_pk_bind; [apply sc_pk_ro, readonly_get_index|]. intros [tid row].
+  apply sc_pk_bind; [apply sc_pk_tbl_addM|]. intros idx.
+  apply sc_pk_bind; [apply sc_pk_set_index|]. intros _.
+  apply sc_pk_bind; [apply sc_pk_copy_all|]. intros _.
+  apply sc_pk_bind; [apply sc_pk_getT|]. intros t.
+  apply sc_pk_bind; [apply sc_pk_getA|]. intros a.
+  apply sc_pk_bind; [apply sc_pk_fire_create|]. intros _.
+  apply sc_pk_bind; [|intros _; apply sc_pk_ro, readonly_ret].
+  apply sc_pk_sp. apply sa_sp_whenM. apply sc_sp_fire_create_rel.
+Qed.
+
+Lemma sc_pc_new_entity : forall s ids, St s -> registered s ids ->
+  sc_pcreate (w_pool s) (w_pool (state_of (new_entity ids [] s))).
+Proof.
+  intros s ids HSt Hreg. pose proof (proj1 HSt) as Hwf. unfold new_entity.
+  destruct (is_locked s) eqn:El.
+  { erewrite sa_bind_err by (apply sb1_check_locked_err; exact El). apply sc_pcreate_refl. }
+  erewrite sa_bind_ok by (apply sb1_check_locked_ok; exact El). cbv beta.
+  destruct (wf_arch0 _ Hwf) as (a0 & Ha0 & Hm0 & t0 & Ht0 & Hta0).
+  assert (Hz : forall j, mk_get 0%N j = true -> j < length (w_reg s)).
+  { intros j Hj. rewrite sa_mk_get_0 in Hj. discriminate. }
+  pose proof (find_or_create_table_add_spec s 0 t0 ids 0%N HSt Ht0 Hz Hreg) as Hf.
+  unfold bind at 1.
+  destruct (find_or_create_table_add 0 ids [] 0%N s) as [[[tid aid] m] s1 | er s1].
+  2:{ destruct Hf as ((_ & Hsr & _) & _). simpl. replace (w_pool s1) with (w_pool s) by (symmetry; apply Hsr).
+      apply sc_pcreate_refl. }
+  destruct Hf as ((_ & Hsr & _) & _).
+  replace (w_pool s) with (w_pool s1) by apply Hsr.
+  apply (sc_pc_getM _ (fun e => idx <- tbl_addM tid e ;; set_index (fst e) (Some tid, idx) ;;;
+                                 register_targets [] ;;; a <- getA aid ;; ret (e, a_mask a))).
+  intros e. apply sc_pk_bind; [apply sc_pk_tbl_addM|]. intros idx.
+  apply sc_pk_bind; [apply sc_pk_set_index|]. intros _.
+  apply sc_pk_bind; [apply sc_pk_ro, readonly_ret|]. intros _.
+  apply sc_pk_bind; [apply sc_pk_getA|]. intros a. apply sc_pk_ro, readonly_ret.
+Qed.
+
+(** The state after a creation (possibly followed by callbacks). *)
+Definition sc_created (s : W) (e : ent) (s' : W) : Prop :=
+  St s' /\ w_reg s' = w_reg s /\ w_issued s' = w_issued s /\ sc_pcreate (w_pool s) (w_pool s') /\
+  (forall x, live s x = true -> live s' x = true) /\
+  live s e = false /\ live s' e = true /\ alive s' e = true.
+
+Lemma sc_created_intro : forall s e s', St s' -> frame_user s s' -> sc_pcreate (w_pool s) (w_pool s') ->
+  others_same s s' e -> live s e = false -> live s' e = true -> alive s' e = true -> sc_created s e s'.
+Proof.
+  intros s e s' H1 (F1 & _ & _ & _ & F5 & _) H3 H4 H5 H6 H7.
+  split; [exact H1|]. split; [exact F1|]. split; [exact F5|]. split; [exact H3|].
+  split; [|auto]. intros x Hx. assert (x <> e) by (intros ->; congruence).
+  rewrite (proj1 (H4 x H)). exact Hx.
+Qed.
+
+Lemma sc_created_storage : forall s e s1 s2, sc_created s e s1 -> storage_same s1 s2 -> sc_created s e s2.
+Proof.
+  intros s e s1 s2 (C1 & C2 & C3 & C4 & C5 & C6 & C7 & C8) SS.
+  pose proof (sb3_storage_same_content _ _ SS) as CS.
+  pose proof (storage_same_St _ _ SS C1) as HSt2.
+  destruct SS as (_ & S2 & S3 & _ & _ & _ & _ & _ & _ & _ & _ & _ & _ & _ & _ & _ & _ & S18).
+  split; [exact HSt2|]. split; [congruence|]. split; [congruence|]. split; [rewrite S3; exact C4|].
+  split; [intros x Hx; rewrite (proj1 (CS x)); auto|]. split; [exact C6|].
+  split; [rewrite (proj1 (CS e)); exact C7|]. unfold alive in *. rewrite S3. exact C8.
+Qed.
+
+Lemma sc_created_trans : forall s e s', sc_created s e s' -> sc_trans s s'.
+Proof.
+  intros s e s' (C1 & C2 & C3 & C4 & C5 & _). split; [exact C1|]. split; [exact C2|]. split; [exact C3|].
+  left. auto.
+Qed.
+
+Lemma sc_room : forall s n, Inv s n -> n + 4 < Nat.pow 2 31 -> room s.
+Proof. intros s n (_ & _ & _ & I3) H. unfold room. sc_lia. Qed.
+
+
+(** *** RemoveEntity recycles exactly the slot of the entity *)
+Lemma sc_rm_core_pool : forall s e tid row s', w_relarchs s = [] ->
+  sb3_rm_core e tid row s = Ok tt s' -> pool_recycle (w_pool s) e = Some (w_pool s').
+Proof.
+  intros s e tid row s' Hr. unfold sb3_rm_core.
+  cbv [bind get put modify setT modT getT pool_recycleM whenM ret of_opt fail].
+  destruct (nth_error (w_tables s) tid) as [t|]; [|discriminate].
+  destruct (tbl_remove t row) as [sw t1]. cbn.
+  destruct (pool_recycle (w_pool s) e) as [p'|]; [|discriminate]. cbn.
+  destruct sw.
+  - destruct (nth_error (t_ents t1) row) as [se|]; [|discriminate]. cbn.
+    destruct (nth (fst e) (w_istarget s) false); cbn; rewrite ?Hr; cbn; intros H; inversion H; reflexivity.
+  - cbn. destruct (nth (fst e) (w_istarget s) false); cbn; rewrite ?Hr; cbn; intros H; inversion H; reflexivity.
+Qed.
+
+Lemma sc_rm_pool : forall s e u s', St s -> storage_remove_entity e s = Ok u s' ->
+  pool_recycle (w_pool s) e = Some (w_pool s').
+Proof.
+  intros s e u s' HSt. rewrite sb3_rm_unfold.
+  destruct (alive s e); [|discriminate].
+  destruct (nth_error (w_index s) (fst e)) as [[[tid|] row]|]; try discriminate.
+  destruct (nth_error (w_tables s) tid) as [t|]; [|discriminate].
+  destruct (nth_error (w_archs s) (t_arch t)) as [a|]; [|discriminate].
+  match goal with |- bind ?m ?k s = _ -> _ =>
+    destruct (sb3_bind_pres_case _ _ m k s (sb3_pres_events _ _ _ _)) as [(x & s1 & SS & E)|(er & s1 & SS & E)];
+      rewrite E; clear E
+  end; [|discriminate].
+  intros H. destruct u.
+  assert (Hr : w_relarchs s1 = []).
+  { destruct HSt as (_ & _ & _ & _ & N4). destruct SS as (_ & _ & _ & _ & _ & _ & _ & S8 & _). congruence. }
+  rewrite <- (proj1 (proj2 (proj2 SS))). eapply sc_rm_core_pool; eauto.
+Qed.
+
+
+(** *** Per-operation descriptions *)
+Definition sc_post (ret_e : bool) (s : W) (r : res W (list Z)) : Prop :=
+  sc_trans s (state_of r) /\
+  (ret_e = true -> forall res s', r = Ok res s' -> exists e, res = Zent e /\ sc_created s e s').
+
+Lemma sc_post_err : forall b s er s', sc_trans s s' -> sc_post b s (Err er s').
+Proof. intros b s er s' H. split; [exact H|]. intros _ res s0 E. discriminate. Qed.
+Lemma sc_post_false : forall s r, sc_trans s (state_of r) -> sc_post false s r.
+Proof. intros s r H. split; [exact H|]. intros E. discriminate. Qed.
+Lemma sc_post_tail_sp : forall s s1 (m : MW (list Z)), sc_trans s s1 -> sa_sp m -> sc_post false s (m s1).
+Proof. intros s s1 m H Hm. apply sc_post_false. eapply sc_trans_storage; [exact H|apply Hm]. Qed.
+Lemma sc_post_created_tail : forall s e s1 (m : MW unit), sc_created s e s1 -> sa_sp m ->
+  sc_post true s ((m ;;; ret (Zent e)) s1).
+Proof.
+  intros s e s1 m Hc Hm. specialize (Hm s1). unfold bind. destruct (m s1) as [u s2|er s2]; simpl in Hm.
+  - pose proof (sc_created_storage _ _ _ _ Hc Hm) as Hc2. split; [eapply sc_created_trans; eauto|].
+    intros _ res s' H. inversion H; subst. exists e. split; [reflexivity|exact Hc2].
+  - apply sc_post_err. eapply sc_created_trans, sc_created_storage; eauto.
+Qed.
+Lemma sc_post_ro : forall s (m : MW (list Z)), St s -> readonly m -> sc_post false s (m s).
+Proof. intros s m H Hm. apply sc_post_false. rewrite (Hm s). apply sc_trans_refl. exact H. Qed.
+
+Lemma sc_ro_cases : forall A (m : MW A), readonly m -> forall s, (exists a, m s = Ok a s) \/ (exists er, m s = Err er s).
+Proof. intros A m H s. specialize (H s). destruct (m s) as [a s1|er s1]; simpl in H; subst; eauto. Qed.
+
+Lemma sc_ro_getA : forall i, readonly (getA i).
+Proof. intros. unfold getA. ro. Qed.
+Lemma sc_ro_arch_mask : forall tid, readonly (arch_mask_of_table tid).
+Proof.
+  intros. unfold arch_mask_of_table. apply readonly_bind; [apply readonly_getT|]. intros t.
+  apply readonly_bind; [apply sc_ro_getA|]. intros a. apply readonly_ret.
+Qed.
+Lemma sc_ro_cell_of : forall debug e c, readonly (cell_of debug e c).
+Proof.
+  intros. unfold cell_of. apply readonly_bind; [apply readonly_get|]. intros s0.
+  apply readonly_bind; [apply readonly_guard|]. intros _.
+  apply readonly_bind; [apply readonly_get_index|]. intros [tid row].
+  apply readonly_bind; [apply readonly_getT|]. intros t.
+  destruct (tbl_colidx t c); [apply readonly_ret|apply readonly_fail].
+Qed.
+
+Lemma sc_sp_forM : forall A (l : list A) (f : A -> MW unit), (forall a, sa_sp (f a)) -> sa_sp (forM_ l f).
+Proof.
+  intros A l f H. induction l as [|x l IH]; cbn [forM_]; [apply sa_sp_ret|].
+  apply sa_sp_bind; [apply H|intros _; exact IH].
+Qed.
+Ltac sc_sp_tac := repeat (sa_sp_step || (apply sc_sp_forM; intros ?)).
+
+Lemma sc_sp_add_observer : forall oi, sa_sp (add_observer oi).
+Proof.
+  intros oi. unfold add_observer. apply sa_sp_bind; [apply sa_sp_getO|]. intros o.
+  apply sa_sp_bind; [apply sa_sp_guard|]. intros _.
+  intros s. rewrite sb2_bind_get.
+  destruct (ipool_get None (w_opool s)) as [[id p']|]; [|apply sa_storage_same_refl].
+  unfold bind at 1. unfold put at 1. cbv beta iota.
+  match goal with |- storage_same _ (state_of (?m ?s1)) =>
+    apply (sa_storage_same_trans s s1); [unfold storage_same; repeat split|];
+    assert (Hk : sa_sp m); [|apply Hk]
+  end.
+  sc_sp_tac.
+Qed.
+
+Section sc_ops.
+Variables (debug : bool) (s : W) (n : nat).
+Hypothesis HI : Inv s n.
+Hypothesis Hn : n + 4 < Nat.pow 2 31.
+Let HSt : St s := proj1 HI.
+Let Hroom : room s := sc_room s n HI Hn.
+
+Lemma sc_op_ONewEntity : sc_post true s (step_op debug ONewEntity s).
+Proof.
+  cbn [step_op]. destruct (is_locked s) eqn:El.
+  { erewrite sa_bind_err by (apply sb1_check_locked_err; exact El). apply sc_post_err, sc_trans_refl, HSt. }
+  erewrite sa_bind_ok by (apply sb1_check_locked_ok; exact El).
+  destruct (create_entity_spec s HSt Hroom) as (e & s1 & E & C1 & C2 & C3 & C4 & C5 & C6 & C7 & C8 & C9).
+  pose proof (sc_pc_create_entity 0 s) as Hp. rewrite E in Hp. simpl in Hp.
+  assert (Hc : sc_created s e s1) by (apply sc_created_intro; auto).
+  erewrite sa_bind_ok by exact E.
+  destruct (sc_ro_cases _ (arch_mask_of_table 0) (sc_ro_arch_mask 0) s1) as [(m & Em)|(er & Em)].
+  2:{ erewrite sa_bind_err by exact Em. apply sc_post_err. eapply sc_created_trans; exact Hc. }
+  erewrite sa_bind_ok by exact Em.
+  apply sc_post_created_tail; [exact Hc|exact (fire_create_entity_if_has_storage e m)].
+Qed.
+
+Lemma sc_op_OUNew : forall ids, registered s ids -> sc_post true s (step_op debug (OUNew ids) s).
+Proof.
+  intros ids Hreg. cbn [step_op].
+  pose proof (new_entity_spec s ids HSt Hroom Hreg) as Hs. pose proof (sc_pc_new_entity s ids HSt Hreg) as Hp.
+  unfold bind at 1. destruct (new_entity ids [] s) as [[e m] s1|er s1]; simpl in Hp.
+  - destruct Hs as (C1 & C2 & C3 & C4 & C5 & C6 & C7 & C8 & C9 & C10 & C11 & C12). cbv beta iota.
+    apply sc_post_created_tail; [apply sc_created_intro; auto|exact (fire_create_entity_if_has_storage e m)].
+  - apply sc_post_err, sc_trans_rejected, Hs.
+Qed.
+
+Lemma sc_op_OCopy : forall h, sc_post true s (step_op debug (OCopy h) s).
+Proof.
+  intros h. cbn [step_op]. unfold bind at 1. rewrite sc_resolveH.
+  destruct (handle s h) as [e|] eqn:Hh; [|apply sc_post_err, sc_trans_refl, HSt].
+  pose proof (copy_entity_spec_partial_obs s e HSt Hroom (sc_handle_alive_live s n h e HI Hh)) as Hs.
+  pose proof (sc_pc_copy_entity e s) as Hp.
+  unfold bind. destruct (w_copy_entity e s) as [ne s1|er s1]; simpl in Hp.
+  - destruct Hs as (C1 & C2 & C3 & C4 & C5 & C6 & C7 & C8 & C9 & C10 & C11).
+    assert (Hc : sc_created s ne s1) by (apply sc_created_intro; auto).
+    split; [exact (sc_created_trans _ _ _ Hc)|].
+    intros _ res s' H. inversion H; subst. exists ne. split; [reflexivity|exact Hc].
+  - apply sc_post_err. destruct Hs as [R|(_ & ne & (C1 & C2 & C3 & C4 & C5 & C6 & C7 & C8 & C9 & C10 & C11))].
+    + apply sc_trans_rejected; exact R.
+    + apply (sc_created_trans s ne). apply sc_created_intro; auto.
+Qed.
+
+(** The common prefix [resolveH h ;; get ;; guard alive]. *)
+Lemma sc_guarded : forall h (k : ent -> MW (list Z)),
+  (forall e, handle s h = Some e -> alive s e = true -> sc_post false s (k e s)) ->
+  sc_post false s ((e <- resolveH h ;; s0 <- get ;; guard (alive s0 e) EDead ;;; k e) s).
+Proof.
+  intros h k H. unfold bind at 1. rewrite sc_resolveH.
+  destruct (handle s h) as [e|] eqn:Hh; [|apply sc_post_err, sc_trans_refl, HSt].
+  rewrite sb2_bind_get. cbv beta. destruct (alive s e) eqn:Ha.
+  - rewrite sb2_bind_guard_true. apply H; auto.
+  - rewrite sb2_bind_guard_false. apply sc_post_err, sc_trans_refl, HSt.
+Qed.
+
+Lemma sc_op_OUAdd : forall h ids, registered s ids -> sc_post false s (step_op debug (OUAdd h ids) s).
+Proof.
+  intros h ids Hreg. cbn [step_op].
+  apply (sc_guarded h (fun e => r <- w_add e ids [] ;; fire_add_if_has EvAddComponents e (fst r) (snd r) ;;; ret [])).
+  intros e Hh Ha. pose proof (w_add_spec s e ids HSt Hroom Hreg) as Hs.
+  unfold bind at 1. destruct (w_add e ids [] s) as [[om nm] s1|er s1].
+  - destruct Hs as (A1 & _ & _ & _ & _ & _ & A7 & _ & _ & _ & A11 & A12 & _ & A14).
+    apply sc_post_tail_sp; [eapply sc_trans_modified; eauto|].
+    apply sa_sp_bind; [exact (fire_add_if_has_storage _ _ _ _)|intros; apply sa_sp_ret].
+  - apply sc_post_err, sc_trans_rejected, Hs.
+Qed.
+
+Lemma sc_op_OURemove : forall h ids, registered s ids -> sc_post false s (step_op debug (OURemove h ids) s).
+Proof.
+  intros h ids Hreg. cbn [step_op].
+  apply (sc_guarded h (fun e => w_remove e ids ;;; ret [])).
+  intros e Hh Ha. pose proof (w_remove_spec s e ids HSt Hroom Hreg) as Hs.
+  unfold bind at 1. destruct (w_remove e ids s) as [u s1|er s1].
+  - destruct Hs as (A1 & _ & _ & _ & _ & _ & A7 & _ & A9 & A10 & A11).
+    apply sc_post_tail_sp; [eapply sc_trans_modified; eauto|apply sa_sp_ret].
+  - apply sc_post_err, sc_trans_rejected, Hs.
+Qed.
+
+Lemma sc_op_OUExchange : forall h add rem, registered s add -> registered s rem ->
+  sc_post false s (step_op debug (OUExchange h add rem []) s).
+Proof.
+  intros h add rem Hra Hrr. cbn [step_op].
+  apply (sc_guarded h (fun e => rels <- resolveR [] ;; r <- w_exchange e add rem rels ;;
+      whenM (negb (is_nil add)) (
+        fire_add_if_has EvAddComponents e (fst r) (snd r) ;;;
+        whenM (negb (is_nil rels)) (fire_add_if_has EvAddRelations e (fst r) (snd r))) ;;;
+      ret [])).
+  intros e Hh Ha. unfold resolveR. cbn [mapM]. rewrite sb2_bind_ret. cbv beta.
+  pose proof (w_exchange_spec s e add rem HSt Hroom Hra Hrr) as Hs.
+  unfold bind at 1.
+  match goal with |- sc_post _ _ (match ?x with Ok _ _ => _ | Err _ _ => _ end) =>
+    change x with (w_exchange e add rem [] s) end.
+  destruct (w_exchange e add rem [] s) as [[om nm] s1|er s1].
+  - destruct Hs as (A1 & _ & _ & _ & _ & _ & _ & A8 & _ & A10 & A11 & A12).
+    apply sc_post_tail_sp; [eapply sc_trans_modified; eauto|].
+    apply sa_sp_bind; [|intros; apply sa_sp_ret]. apply sa_sp_whenM.
+    apply sa_sp_bind; [exact (fire_add_if_has_storage _ _ _ _)|intros].
+    apply sa_sp_whenM. exact (fire_add_if_has_storage _ _ _ _).
+  - apply sc_post_err, sc_trans_rejected, Hs.
+Qed.
+
+Lemma sc_op_OWrite : forall h c v, sc_post false s (step_op debug (OWrite h c v) s).
+Proof.
+  intros h c v. cbn [step_op]. unfold bind at 1. rewrite sc_resolveH.
+  destruct (handle s h) as [e|] eqn:Hh; [|apply sc_post_err, sc_trans_refl, HSt].
+  pose proof (write_spec s debug e c v HSt) as Hs.
+  unfold bind at 1 in Hs. unfold bind at 1.
+  destruct (cell_of debug e c s) as [[[tid ci] row] s1|er s1].
+  - cbv beta iota in Hs |- *. unfold bind. destruct (write_cell tid ci row v s1) as [u s2|er s2].
+    + destruct Hs as (A1 & _ & _ & A4 & _ & A6 & A7 & _ & A9).
+      apply sc_post_false. simpl. eapply sc_trans_modified; eauto.
+    + subst s2. apply sc_post_err, sc_trans_refl, HSt.
+  - subst s1. apply sc_post_err, sc_trans_refl, HSt.
+Qed.
+
+Lemma sc_op_ORemoveEntity : forall h, sc_post false s (step_op debug (ORemoveEntity h) s).
+Proof.
+  intros h. cbn [step_op]. unfold bind at 1. rewrite sc_resolveH.
+  destruct (handle s h) as [e|] eqn:Hh; [|apply sc_post_err, sc_trans_refl, HSt].
+  destruct (is_locked s) eqn:El.
+  { erewrite sa_bind_err by (apply sb1_check_locked_err; exact El). apply sc_post_err, sc_trans_refl, HSt. }
+  erewrite sa_bind_ok by (apply sb1_check_locked_ok; exact El).
+  pose proof (remove_entity_spec s e HSt) as Hs.
+  unfold bind at 1. destruct (storage_remove_entity e s) as [u s1|er s1] eqn:E.
+  - destruct Hs as (R1 & R2 & R3 & R4 & R5 & R6 & (F1 & _ & _ & _ & F5 & _) & R8).
+    apply sc_post_false. simpl.
+    split; [exact R1|]. split; [exact F1|]. split; [exact F5|]. right. exists e.
+    split; [eapply sc_rm_pool; eauto|]. split; [exact R2|].
+    intros x Hne Hx. rewrite (proj1 (R6 x Hne)). exact Hx.
+  - apply sc_post_err, sc_trans_rejected, Hs.
+Qed.
+
+Lemma sc_op_OGetRel : forall h c, sc_post false s (step_op debug (OGetRel h c) s).
+Proof.
+  intros. apply sc_post_ro; [exact HSt|]. cbn [step_op].
+  apply readonly_bind; [apply readonly_resolveH|]. intros e.
+  apply readonly_bind; [apply sc_ro_cell_of|]. intros [[tid ci] row].
+  apply readonly_bind; [apply readonly_getT|]. intros t. ro.
+Qed.
+
+Lemma sc_op_OGet : forall h c, sc_post false s (step_op debug (OGet h c) s).
+Proof.
+  intros. apply sc_post_ro; [exact HSt|]. cbn [step_op].
+  apply readonly_bind; [apply readonly_resolveH|]. intros e.
+  apply readonly_bind; [apply sc_ro_cell_of|]. intros [[tid ci] row].
+  apply readonly_bind; [apply readonly_getT|]. intros t. ro.
+Qed.
+
+Lemma sc_op_reading : forall o, reading o = true -> sc_post false s (step_op debug o s).
+Proof.
+  intros o Hr. apply sc_post_false. rewrite (reads_do_not_change_state debug o s Hr). apply sc_trans_refl, HSt.
+Qed.
+
+Lemma sc_op_OObsNew : forall evt f w wo ex cb, sc_post false s (step_op debug (OObsNew evt f w wo ex cb) s).
+Proof.
+  intros. cbn [step_op]. rewrite sb2_bind_get. cbv beta.
+  apply sc_post_false. unfold bind, modify, ret. simpl.
+  eapply sc_trans_storage; [apply sc_trans_refl, HSt|]. unfold storage_same. repeat split.
+Qed.
+
+Lemma sc_op_OObsRegister : forall oi, sc_post false s (step_op debug (OObsRegister oi) s).
+Proof.
+  intros. cbn [step_op]. apply sc_post_tail_sp; [apply sc_trans_refl, HSt|].
+  apply sa_sp_bind; [apply sc_sp_add_observer|intros; apply sa_sp_ret].
+Qed.
+
+Lemma sc_op_OObsUnregister : forall oi, sc_post false s (step_op debug (OObsUnregister oi) s).
+Proof.
+  intros. cbn [step_op]. apply sc_post_tail_sp; [apply sc_trans_refl, HSt|].
+  apply sa_sp_bind; [apply sa_sp_remove_observer|intros; apply sa_sp_ret].
+Qed.
+
+Lemma sc_op_spec : forall o, core_op o = true -> registered s (op_ids o) ->
+  sc_post (returns_entity o) s (step_op debug o s).
+Proof.
+  intros o Hc Hreg. destruct o; try discriminate Hc; cbn [returns_entity op_ids] in *.
+  - apply sc_op_ONewEntity.
+  - apply sc_op_OUNew; exact Hreg.
+  - apply sc_op_OCopy.
+  - apply sc_op_OUAdd; exact Hreg.
+  - apply sc_op_OURemove; exact Hreg.
+  - destruct rels; [|discriminate Hc]. apply sc_op_OUExchange; intros c Hin; apply Hreg, in_or_app; auto.
+  - apply sc_op_OWrite.
+  - apply sc_op_ORemoveEntity.
+  - apply sc_op_OObsNew.
+  - apply sc_op_OObsRegister.
+  - apply sc_op_OObsUnregister.
+  - apply sc_op_reading; reflexivity.
+  - apply sc_op_reading; reflexivity.
+  - apply sc_op_OGetRel.
+  - apply sc_op_reading; reflexivity.
+  - apply sc_op_OGet.
+  - apply sc_op_reading; reflexivity.
+Qed.
+End sc_ops.
+
+
+(** *** The post-processing of [step] *)
+Definition sc_issue (o : op) (r : res W (list Z)) : W :=
+  match r with
+  | Ok (i :: g :: _) _ =>
+      if returns_entity o then state_of r <| w_issued ::= fun l => l ++ [(Z.to_nat i, Z.to_N g)] |> else state_of r
+  | _ => state_of r
+  end.
+
+Lemma sc_step_state : forall debug wd s line o, decode_op line = Some o -> core_op o = true ->
+  fst (step debug wd s line) = sc_issue o (step_op debug o (s <| w_log := [] |>)) <| w_log := [] |>.
+Proof.
+  intros debug wd s line o Hd Hc. unfold step. rewrite Hd. cbv zeta.
+  assert (Hi : issues_from_log o = false) by (destruct o; try discriminate Hc; reflexivity).
+  rewrite Hi. cbn [andb fst]. reflexivity.
+Qed.
+
+Lemma sc_issue_cases : forall o s r, sc_post (returns_entity o) s r ->
+  (sc_issue o r = state_of r) \/
+  (exists e s1, r = Ok (Zent e) s1 /\ sc_issue o r = s1 <| w_issued ::= fun l => l ++ [e] |> /\ sc_created s e s1).
+Proof.
+  intros o s r (T & C). destruct (returns_entity o) eqn:R.
+  - destruct r as [res s1|er s1]; [|left; reflexivity].
+    destruct (C eq_refl _ _ eq_refl) as (e & -> & Hc). right. exists e, s1.
+    split; [reflexivity|]. split; [|exact Hc].
+    unfold sc_issue, Zent, Zn. rewrite R. cbn [state_of]. rewrite Nat2Z.id, N2Z.id. destruct e; reflexivity.
+  - left. unfold sc_issue. rewrite R. destruct r as [[|i [|g rest]]|]; reflexivity.
+Qed.
+
+Lemma sc_finish_plain : forall s1 m, St s1 -> issued_ok s1 m -> Inv (s1 <| w_log := [] |>) m.
+Proof. intros s1 m H1 H2. apply sc_Inv_log. split; assumption. Qed.
+
+Lemma sc_finish_issue : forall s1 m e, St s1 -> issued_ok s1 m -> live s1 e = true -> alive s1 e = true ->
+  Inv (s1 <| w_issued ::= fun l => l ++ [e] |> <| w_log := [] |>) m.
+Proof.
+  intros s1 m e H1 (I1 & I2 & I3) Hl Ha. apply sc_Inv_log. split; [apply sc_St_issued; exact H1|].
+  split; [|split; [exact I2|exact I3]].
+  intros x Hx. change (In x (w_issued s1 ++ [e])) in Hx. apply in_app_or in Hx. destruct Hx as [Hx|[<-|[]]].
+  - exact (I1 x Hx).
+  - destruct (live_alive s1 e (proj1 H1) Hl) as (_ & H2). destruct (sc_alive_slot s1 e Ha) as (l & E).
+    apply sa_nth_error_lt in E. split; [split; [exact H2|exact E]|]. left. exact Hl.
+Qed.
+
 (** One step of the operation language preserves the invariant. *)
 Theorem step_inv : forall debug wd s n line o,
   Inv s n -> n + 4 < Nat.pow 2 31 -> decode_op line = Some o -> core_op o = true ->
   (forall c, In c (op_ids o) -> c < length (w_reg s)) ->
   Inv (fst (step debug wd s line)) (S n) /\ w_reg (fst (step debug wd s line)) = w_reg s.
-Admitted.
+Proof.
+  intros debug wd s n line o HI Hn Hd Hc Hreg.
+  rewrite (sc_step_state debug wd s line o Hd Hc).
+  pose proof (sc_Inv_log s n [] HI) as HI0.
+  set (s0 := s <| w_log := [] |>) in *.
+  pose proof (sc_op_spec debug s0 n HI0 Hn o Hc Hreg) as HP.
+  pose proof HP as (T & _).
+  pose proof (sc_trans_issued s0 _ n HI0 Hn T) as HIs.
+  destruct (sc_issue_cases o s0 _ HP) as [E|(e & s1 & Er & E & Hcr)]; rewrite E.
+  - split; [apply sc_finish_plain; [apply T|exact HIs]|]. exact (proj1 (proj2 T)).
+  - rewrite Er in *. cbn [state_of] in *. destruct Hcr as (C1 & C2 & C3 & C4 & C5 & C6 & C7 & C8).
+    split; [apply sc_finish_issue; assumption|]. exact C2.
+Qed.
 
 (** Every reachable state of every core history satisfies the invariant. *)
 Definition core_line (nreg : nat) (line : list Z) : Prop :=
@@ -60,10 +775,37 @@ Definition cfg_ok (c : script_cfg) : Prop :=
 Definition run_core (c : script_cfg) (lines : list (list Z)) : W :=
   fold_left (fun s l => fst (step (sc_debug c) false s l)) lines (init_world c).
 
+
+Lemma sc_init_inv : forall c, cfg_ok c -> Inv (init_world c) 0.
+Proof.
+  intros c (C1 & C2 & C3 & C4). split; [apply St_init; assumption|].
+  unfold issued_ok, init_world. cbn [w_issued w_pool pool_new pe]. split; [|split].
+  - intros e [].
+  - intros [|[|i]] l g E Hi; try lia. destruct i; discriminate.
+  - simpl. lia.
+Qed.
+
+Lemma sc_run_inv : forall c, cfg_ok c -> forall lines,
+  Forall (core_line (length (sc_kinds c))) lines -> length lines + 4 < Nat.pow 2 31 ->
+  Inv (run_core c lines) (length lines) /\ w_reg (run_core c lines) = sc_kinds c.
+Proof.
+  intros c Hc lines. induction lines as [|l lines IH] using rev_ind; intros HF Hb.
+  - split; [apply sc_init_inv; exact Hc|reflexivity].
+  - apply Forall_app in HF. destruct HF as (HF & Hl). inversion Hl as [|? ? (o & Hd & Hco & Hids) _]; subst.
+    rewrite app_length in *. cbn [length] in *. rewrite Nat.add_1_r in *.
+    destruct IH as (IH1 & IH2); [exact HF|lia|].
+    unfold run_core in *. rewrite fold_left_app. cbn [fold_left].
+    destruct (step_inv (sc_debug c) false _ (length lines) l o IH1) as (S1 & S2); auto; try lia.
+    { rewrite IH2. exact Hids. }
+    split; [exact S1|congruence].
+Qed.
+
 Theorem reachable_inv : forall c lines,
   cfg_ok c -> Forall (core_line (length (sc_kinds c))) lines -> length lines + 4 < Nat.pow 2 31 ->
   Inv (run_core c lines) (length lines).
-Admitted.
+Proof.
+  intros c lines Hc Hl Hb. apply (sc_run_inv c Hc lines Hl Hb).
+Qed.
 
 (** C10 at the level of the operation language: in a reachable state, using a handle that was issued
     and has been removed since (whether or not its ID was recycled), or the zero entity, in any
@@ -78,7 +820,37 @@ Definition uses_handle (o : op) (h : Z) : Prop :=
 Theorem stale_handle_rejected : forall debug s n o h e,
   Inv s n -> uses_handle o h -> handle s h = Some e -> live s e = false ->
   exists er, step_op debug o s = Err er s.
-Admitted.
+Proof.
+  intros debug s n o h e HI Hu Hh Hl.
+  pose proof (sc_handle_dead s n h e HI Hh Hl) as Ha.
+  destruct (dead_rejected s e Ha) as (D1 & D2 & D3 & D4 & D5 & D6 & D7).
+  assert (G : forall (k : unit -> MW (list Z)), exists er,
+            (s0 <- get ;; guard (alive s0 e) EDead ;;; k tt) s = Err er s).
+  { intros k. exists EDead. apply (sb1_guard_alive_err _ s e k Ha). }
+  assert (R : forall (k : ent -> MW (list Z)), bind (resolveH h) k s = k e s).
+  { intros k. unfold bind. rewrite sc_resolveH, Hh. reflexivity. }
+  destruct o; cbn [uses_handle] in Hu; try contradiction; subst; cbn [step_op]; rewrite R.
+  - (* OCopy *) destruct D5 as (er & E). exists er. apply sa_bind_err. exact E.
+  - (* OUAdd *) apply (G (fun _ => _)).
+  - (* OUAddRel *) apply (G (fun _ => _)).
+  - (* OURemove *) apply (G (fun _ => _)).
+  - (* OUExchange *) apply (G (fun _ => _)).
+  - (* OWrite *) destruct (D7 debug c) as (er & E). exists er. apply sa_bind_err. exact E.
+  - (* OUSetRel *)
+    destruct (sc_ro_cases _ (resolveR rels) (readonly_resolveR rels) s) as [(rl & E)|(er & E)].
+    + erewrite sa_bind_ok by exact E. destruct (D6 rl) as (er & E'). exists er. apply sa_bind_err. exact E'.
+    + exists er. apply sa_bind_err. exact E.
+  - (* ORemoveEntity *)
+    destruct (is_locked s) eqn:El.
+    + exists ELocked. apply sa_bind_err. apply sb1_check_locked_err. exact El.
+    + erewrite sa_bind_ok by (apply sb1_check_locked_ok; exact El). destruct D4 as (er & E). exists er.
+      apply sa_bind_err. exact E.
+  - (* OMapSet *) destruct (D7 debug c) as (er & E). exists er. apply sa_bind_err. exact E.
+  - (* OHas *) apply (G (fun _ => _)).
+  - (* OGetRel *) destruct (D7 debug c) as (er & E). exists er. apply sa_bind_err. exact E.
+  - (* OIDs *) apply (G (fun _ => _)).
+  - (* OGet *) destruct (D7 debug c) as (er & E). exists er. apply sa_bind_err. exact E.
+Qed.
 
 (** C02 at world level: a handle issued by a step is alive afterwards and differs from every handle
     issued before (whether still alive or removed, whether or not its ID is being reused). *)
@@ -87,4 +859,26 @@ Theorem creation_fresh : forall debug wd s n line o e,
   (forall c, In c (op_ids o) -> c < length (w_reg s)) ->
   w_issued (fst (step debug wd s line)) = w_issued s ++ [e] ->
   ~ In e (w_issued s) /\ live (fst (step debug wd s line)) e = true /\ alive (fst (step debug wd s line)) e = true.
-Admitted.
+Proof.
+  intros debug wd s n line o e HI Hn Hd Hc Hreg.
+  rewrite (sc_step_state debug wd s line o Hd Hc).
+  pose proof (sc_Inv_log s n [] HI) as HI0.
+  set (s0 := s <| w_log := [] |>) in *.
+  pose proof (sc_op_spec debug s0 n HI0 Hn o Hc Hreg) as HP.
+  pose proof HP as (T & _).
+  destruct (sc_issue_cases o s0 _ HP) as [E|(e' & s1 & Er & E & Hcr)]; rewrite E.
+  - intros Hiss. exfalso. change (w_issued (state_of (step_op debug o s0)) = w_issued s ++ [e]) in Hiss.
+    rewrite (proj1 (proj2 (proj2 T))) in Hiss. change (w_issued s0) with (w_issued s) in Hiss.
+    apply (f_equal (@length ent)) in Hiss. rewrite app_length in Hiss. simpl in Hiss. lia.
+  - intros Hiss. change (w_issued s1 ++ [e'] = w_issued s ++ [e]) in Hiss.
+    destruct Hcr as (C1 & C2 & C3 & (G1 & _) & C5 & C6 & C7 & C8).
+    rewrite C3 in Hiss. change (w_issued s0) with (w_issued s) in Hiss.
+    apply app_inj_tail in Hiss. destruct Hiss as (_ & <-).
+    split; [|split; [exact C7|exact C8]].
+    intros Hin. destruct HI as (_ & (I1 & _)). destruct (I1 e' Hin) as (_ & [L|(l & g & Es & Hg)]).
+    + change (live s0 e') with (live s e') in C6. congruence.
+    + change (w_pool s0) with (w_pool s) in G1. destruct (G1 _ _ _ Es) as (l' & E1).
+      destruct (sc_alive_slot s1 e' C8) as (l2 & E2). rewrite E1 in E2. inversion E2; subst. lia.
+Qed.
+
+(** ** Assumption audit *)
